@@ -104,7 +104,7 @@ def run(ctx):
                     ctx.ob("R01.2", "%s:%s:%d-byte %s values" % (q, d["data"], len(r), d["dir"]), not bad, site=A.where(r[0][4]),
                            detail={"patterns": ncases, "mismatches": bad[:4]},
                            what="%s of %s in %s does not reproduce the bytes: %s" % (d["dir"], d["data"], q, bad[:2]))
-    ctx.require_count("R01.2", 26)
+    ctx.require_count("R01.2", 13, but_not_ending=" values")
 
     # ---- R01.3
     pad_obligations(ctx, u, "R01.3", ["vsosc_null", "rtosc_amessage", "arg_start", "arg_off", "arg_size", "rtosc_message_ring_length"])
